@@ -961,3 +961,295 @@ Proof.
     apply orb_false_elim in E. destruct E as [E1 E2]. apply N.eqb_neq in E1, E2.
     split; [split; assumption|reflexivity].
 Qed.
+
+(* ================================================================== *)
+(* 6. routing of an answer: handle_ready_read_index, respond_reads     *)
+(* ================================================================== *)
+
+Definition local_req (self : N) (req : msg) : bool :=
+  (m_from req =? INVALID_ID) || (m_from req =? self).
+
+(* the MsgReadIndexResp the leader [r] queues for a forwarded request *)
+Definition rir_msg (r : raft) (req : msg) (idx : N) : msg :=
+  msg_default <| m_type := MsgReadIndexResp |> <| m_to := m_from req |> <| m_index := idx |>
+              <| m_entries := m_entries req |> <| m_from := r_id r |> <| m_term := r_term r |>.
+
+(* C08.5 (leader side): a request issued on the node itself (from = 0 or self) is answered by a
+   local read state and no message; a forwarded one by exactly one MsgReadIndexResp to its
+   sender, with the index and the request's entries, and no read state *)
+Theorem readindex_routing r req idx r' om :
+  handle_ready_read_index r req idx = Ok (r', om) ->
+  (local_req (r_id r) req = true /\ om = None /\
+   exists e rest, m_entries req = e :: rest /\
+     r' = r <| r_read_states := r_read_states r ++ [mkRS idx (e_data e)] |>) \/
+  (local_req (r_id r) req = false /\ r' = r /\
+   om = Some (msg_default <| m_type := MsgReadIndexResp |> <| m_to := m_from req |>
+                <| m_index := idx |> <| m_entries := m_entries req |>) /\
+   send r (msg_default <| m_type := MsgReadIndexResp |> <| m_to := m_from req |>
+                <| m_index := idx |> <| m_entries := m_entries req |>)
+     = Ok (r <| r_msgs := r_msgs r ++ [rir_msg r req idx] |>)).
+Proof.
+  unfold handle_ready_read_index. fold (local_req (r_id r) req). intros H.
+  destruct (local_req (r_id r) req).
+  - left. inv_bind H. inversion H; subst. split; [reflexivity|]. split; [reflexivity|].
+    unfold first_entry_data in Hx. destruct (m_entries req) as [|e rest]; [discriminate|].
+    inversion Hx; subst. exists e, rest. split; reflexivity.
+  - right. inversion H; subst. split; [reflexivity|]. split; [reflexivity|]. split; [reflexivity|].
+    rewrite send_plain by reflexivity. reflexivity.
+Qed.
+
+(* the read states / responses produced for a list of released statuses *)
+Definition rr_states (self : N) (rss : list read_index_status) : list read_state :=
+  flat_map (fun rs => if local_req self (ris_req rs)
+                      then match m_entries (ris_req rs) with
+                           | e :: _ => [mkRS (ris_index rs) (e_data e)]
+                           | [] => []
+                           end
+                      else []) rss.
+
+Definition rr_msgs (r : raft) (rss : list read_index_status) : list msg :=
+  flat_map (fun rs => if local_req (r_id r) (ris_req rs) then []
+                      else [rir_msg r (ris_req rs) (ris_index rs)]) rss.
+
+Lemma set_rs_msgs_same (r : raft) :
+  r <| r_read_states := r_read_states r ++ [] |> <| r_msgs := r_msgs r ++ [] |> = r.
+Proof. rewrite !app_nil_r. destruct r; reflexivity. Qed.
+
+Lemma respond_reads_exact rss : forall r r',
+  respond_reads r rss = Ok r' ->
+  r' = r <| r_read_states := r_read_states r ++ rr_states (r_id r) rss |>
+         <| r_msgs := r_msgs r ++ rr_msgs r rss |>.
+Proof.
+  induction rss as [|rs rest IH]; intros r r' H.
+  { cbn in H. inversion H; subst. cbn [rr_states rr_msgs flat_map]. symmetry. apply set_rs_msgs_same. }
+  cbn [respond_reads] in H. inv_bind H. destruct x as [r1 om]. inv_bind H.
+  apply readindex_routing in Hx.
+  cbn [rr_states rr_msgs flat_map]. fold (rr_states (r_id r) rest). fold (rr_msgs r rest).
+  destruct Hx as [(Hl & -> & e & rest0 & He & ->)|(Hl & -> & -> & Hs)]; rewrite Hl.
+  - inversion Hx0; subst. clear Hx0. apply IH in H. rewrite H. rewrite He.
+    cbn [app]. destruct r; cbn. rewrite <- app_assoc. reflexivity.
+  - rewrite Hs in Hx0. inversion Hx0; subst. clear Hx0. apply IH in H. rewrite H.
+    cbn [app]. destruct r; cbn. rewrite <- app_assoc. reflexivity.
+Qed.
+
+Lemma rr_msgs_all_rir r rss : rir (rr_msgs r rss) = rr_msgs r rss.
+Proof.
+  induction rss as [|rs rest IH]; [reflexivity|].
+  cbn [rr_msgs flat_map]. fold (rr_msgs r rest). rewrite rir_app, IH.
+  destruct (local_req (r_id r) (ris_req rs)); reflexivity.
+Qed.
+
+Lemma rr_states_In self rss x :
+  In x (rr_states self rss) ->
+  exists rs e rest, In rs rss /\ local_req self (ris_req rs) = true /\
+    m_entries (ris_req rs) = e :: rest /\ x = mkRS (ris_index rs) (e_data e).
+Proof.
+  unfold rr_states. rewrite in_flat_map. intros (rs & Hin & Hx).
+  destruct (local_req self (ris_req rs)) eqn:El; [|destruct Hx].
+  destruct (m_entries (ris_req rs)) as [|e rest] eqn:Ee; [destruct Hx|].
+  destruct Hx as [<-|[]]. exists rs, e, rest. auto.
+Qed.
+
+Lemma rr_msgs_In r rss x :
+  In x (rr_msgs r rss) ->
+  exists rs, In rs rss /\ local_req (r_id r) (ris_req rs) = false /\
+    x = rir_msg r (ris_req rs) (ris_index rs).
+Proof.
+  unfold rr_msgs. rewrite in_flat_map. intros (rs & Hin & Hx).
+  destruct (local_req (r_id r) (ris_req rs)) eqn:El; [destruct Hx|].
+  destruct Hx as [<-|[]]. exists rs. auto.
+Qed.
+
+(* ================================================================== *)
+(* 7. handle_heartbeat_response: a read is served only on a quorum     *)
+(* ================================================================== *)
+
+(* the read-index half of handle_heartbeat_response *)
+Definition hbr_reads (r1 : raft) (m : msg) : Res raft :=
+  if negb (ro_option (r_read_only r1) =? 0) || match m_context m with [] => true | _ => false end
+  then Ok r1 else
+  let '(ro', acks) := ro_recv_ack (r_read_only r1) (m_from m) (m_context m) in
+  let r2 := r1 <| r_read_only := ro' |> in
+  match acks with
+  | Some a =>
+      if prs_has_quorum (r_prs r2) a then
+        z <- ro_advance (r_read_only r2) (m_context m) ;;
+        let '(ro2, rss) := z in
+        respond_reads (r2 <| r_read_only := ro2 |>) rss
+      else Ok r2
+  | None => Ok r2
+  end.
+
+Lemma hbr_split r m r' :
+  handle_heartbeat_response r m = Ok r' ->
+  (get_pr r (m_from m) = None /\ r' = r) \/
+  (exists pr r1, get_pr r (m_from m) = Some pr /\ lf r r1 /\ hbr_reads r1 m = Ok r').
+Proof.
+  unfold handle_heartbeat_response. intros H.
+  destruct (get_pr r (m_from m)) as [pr|]; [|inversion H; left; auto].
+  right. inv_bind H. clear Hx. inv_bind H. exists pr, x0. split; [reflexivity|].
+  split; [|exact H].
+  cif Hx.
+  - inv_bind Hx. destruct x1 as [[ra pa] ba]. inversion Hx; subst.
+    eapply lf_trans; [eapply maybe_send_append_lf; eassumption|apply put_pr_lf].
+  - inversion Hx; subst. apply put_pr_lf.
+Qed.
+
+Lemma prs_has_quorum_conf t t' s : t_conf t' = t_conf t -> prs_has_quorum t' s = prs_has_quorum t s.
+Proof. unfold prs_has_quorum. intros ->. reflexivity. Qed.
+
+(* what the read-index half does, exactly *)
+Lemma hbr_reads_spec r1 m r' :
+  hbr_reads r1 m = Ok r' ->
+  let ro1 := fst (ro_recv_ack (r_read_only r1) (m_from m) (m_context m)) in
+  (* not Safe, or no context: nothing *)
+  ((ro_option (r_read_only r1) <> 0 \/ m_context m = []) /\ r' = r1) \/
+  (* Safe, context not pending: nothing *)
+  (ro_option (r_read_only r1) = 0 /\ m_context m <> [] /\
+   ro_find (ro_pending (r_read_only r1)) (m_context m) = None /\ r' = r1) \/
+  (* Safe, pending, no quorum yet: only the ack is recorded *)
+  (ro_option (r_read_only r1) = 0 /\ m_context m <> [] /\
+   exists rs, ro_find (ro_pending (r_read_only r1)) (m_context m) = Some rs /\
+     prs_has_quorum (r_prs r1) (IdSet.insert (m_from m) (ris_acks rs)) = false /\
+     r' = r1 <| r_read_only := ro1 |>) \/
+  (* Safe, pending, quorum: advance and answer *)
+  (ro_option (r_read_only r1) = 0 /\ m_context m <> [] /\
+   exists rs ro2 rss, ro_find (ro_pending (r_read_only r1)) (m_context m) = Some rs /\
+     prs_has_quorum (r_prs r1) (IdSet.insert (m_from m) (ris_acks rs)) = true /\
+     ro_advance ro1 (m_context m) = Ok (ro2, rss) /\
+     r' = r1 <| r_read_only := ro2 |>
+             <| r_read_states := r_read_states r1 ++ rr_states (r_id r1) rss |>
+             <| r_msgs := r_msgs r1 ++ rr_msgs r1 rss |>).
+Proof.
+  intros H ro1. subst ro1. unfold hbr_reads in H.
+  destruct (ro_option (r_read_only r1) =? 0) eqn:Eo; cbn [negb orb] in H.
+  2:{ inversion H; subst. left. split; [|reflexivity]. left. apply N.eqb_neq. exact Eo. }
+  apply N.eqb_eq in Eo.
+  destruct (m_context m) as [|c0 ctx0] eqn:Ec.
+  { inversion H; subst. left. split; [|reflexivity]. right. reflexivity. }
+  rewrite <- Ec in *. assert (Hne : m_context m <> []) by (rewrite Ec; discriminate).
+  right.
+  destruct (ro_recv_ack_spec (r_read_only r1) (m_from m) (m_context m)) as (Hs & _).
+  destruct (ro_recv_ack (r_read_only r1) (m_from m) (m_context m)) as [ro' acks] eqn:Era.
+  cbn [fst snd] in *.
+  destruct (ro_find (ro_pending (r_read_only r1)) (m_context m)) as [rs|] eqn:Ef;
+    cbn [option_map] in Hs; subst acks.
+  2:{ left. rewrite ro_recv_ack_None in Era by exact Ef. inversion Era; subst.
+      inversion H; subst. split; [exact Eo|]. split; [exact Hne|]. split; [reflexivity|].
+      destruct r1; reflexivity. }
+  right.
+  change (r_prs (r1 <| r_read_only := ro' |>)) with (r_prs r1) in H.
+  destruct (prs_has_quorum (r_prs r1) (IdSet.insert (m_from m) (ris_acks rs))) eqn:Eq.
+  - right. split; [exact Eo|]. split; [exact Hne|].
+    inv_bind H. destruct x as [ro2 rss]. cbn [r_read_only] in Hx.
+    apply respond_reads_exact in H. exists rs, ro2, rss.
+    split; [reflexivity|]. split; [exact Eq|]. split; [exact Hx|]. exact H.
+  - left. split; [exact Eo|]. split; [exact Hne|]. exists rs.
+    split; [reflexivity|]. split; [exact Eq|]. inversion H; subst. reflexivity.
+Qed.
+
+Lemma rr_msgs_ext r1 r rss : r_id r1 = r_id r -> r_term r1 = r_term r -> rr_msgs r1 rss = rr_msgs r rss.
+Proof. intros Hi Ht. unfold rr_msgs, rir_msg. rewrite Hi, Ht. reflexivity. Qed.
+
+(* the pending map after the ack of [m] has been recorded *)
+Definition hbr_ack (r : raft) (m : msg) : read_only :=
+  fst (ro_recv_ack (r_read_only r) (m_from m) (m_context m)).
+
+(* C08.4: the statuses [served] released by a heartbeat response produce exactly the new read
+   states (local requests) and the new MsgReadIndexResp messages (forwarded requests); nothing
+   is served unless the option is Safe, the sender is tracked, the context is pending, and its
+   ack set INCLUDING the sender is a quorum of the current configuration; the index handed out
+   is the recorded one.  Log (hence commit index), term and role are untouched. *)
+Theorem readindex_served_needs_quorum r m r' :
+  handle_heartbeat_response r m = Ok r' ->
+  exists served,
+    r_read_states r' = r_read_states r ++ rr_states (r_id r) served /\
+    rir (r_msgs r') = rir (r_msgs r) ++ rr_msgs r served /\
+    r_log r' = r_log r /\ r_term r' = r_term r /\ r_state r' = r_state r /\ r_id r' = r_id r /\
+    ((served = [] /\ r_read_only r' = r_read_only r /\
+      (get_pr r (m_from m) = None \/ ro_option (r_read_only r) <> 0 \/ m_context m = [] \/
+       ro_find (ro_pending (r_read_only r)) (m_context m) = None)) \/
+     (served = [] /\ r_read_only r' = hbr_ack r m /\
+      ro_option (r_read_only r) = 0 /\ m_context m <> [] /\ get_pr r (m_from m) <> None /\
+      exists rs, ro_find (ro_pending (r_read_only r)) (m_context m) = Some rs /\
+        prs_has_quorum (r_prs r) (IdSet.insert (m_from m) (ris_acks rs)) = false) \/
+     (ro_option (r_read_only r) = 0 /\ m_context m <> [] /\ get_pr r (m_from m) <> None /\
+      exists rs, ro_find (ro_pending (r_read_only r)) (m_context m) = Some rs /\
+        prs_has_quorum (r_prs r) (IdSet.insert (m_from m) (ris_acks rs)) = true /\
+        ro_advance (hbr_ack r m) (m_context m) = Ok (r_read_only r', served))).
+Proof.
+  intros H. apply hbr_split in H.
+  destruct H as [(Hn & ->)|(pr & r1 & Hpr & Hlf & H)].
+  { exists []. cbn [rr_states rr_msgs flat_map]. rewrite !app_nil_r.
+    repeat (split; [reflexivity|]). left. auto. }
+  assert (Htr : get_pr r (m_from m) <> None) by congruence.
+  destruct Hlf as (Hl & Hro & Hrs & Ht & Hi & Hst & Hcf & _ & Hrir).
+  apply hbr_reads_spec in H. cbv zeta in H. unfold hbr_ack.
+  rewrite Hro in H.
+  destruct H as [(Hc & ->)|[(Ho & Hne & Hf & ->)|[(Ho & Hne & rs & Hf & Hq & ->)|
+                 (Ho & Hne & rs & ro2 & rss & Hf & Hq & Hadv & ->)]]].
+  - exists []. cbn [rr_states rr_msgs flat_map]. rewrite !app_nil_r.
+    repeat (split; [assumption|]). left. split; [reflexivity|]. split; [exact Hro|].
+    destruct Hc as [Hc|Hc]; auto.
+  - exists []. cbn [rr_states rr_msgs flat_map]. rewrite !app_nil_r.
+    repeat (split; [assumption|]). left. split; [reflexivity|]. split; [exact Hro|]. auto.
+  - exists []. cbn [rr_states rr_msgs flat_map]. rewrite !app_nil_r. cbn.
+    repeat (split; [assumption|]). right. left. split; [reflexivity|]. split; [reflexivity|].
+    split; [exact Ho|]. split; [exact Hne|]. split; [exact Htr|]. exists rs. split; [exact Hf|].
+    rewrite <- (prs_has_quorum_conf _ _ _ Hcf). exact Hq.
+  - exists rss. cbn. rewrite Hrs, Hi, rir_app, Hrir, rr_msgs_all_rir, (rr_msgs_ext r1 r rss Hi Ht).
+    repeat (split; [assumption || reflexivity|]). right. right.
+    split; [exact Ho|]. split; [exact Hne|]. split; [exact Htr|]. exists rs. split; [exact Hf|].
+    split; [|exact Hadv]. rewrite <- (prs_has_quorum_conf _ _ _ Hcf). exact Hq.
+Qed.
+
+(* every served status is an entry of the leader's pending map as it was before the response
+   (same request, same recorded index), of a queued context *)
+Theorem readindex_served_recorded r m served ro2 :
+  ro_advance (hbr_ack r m) (m_context m) = Ok (ro2, served) ->
+  (forall st, In st served ->
+     exists c st0, In c (ro_queue (r_read_only r)) /\ In (c, st0) (ro_pending (r_read_only r)) /\
+       ris_req st0 = ris_req st /\ ris_index st0 = ris_index st) /\
+  (served <> [] -> In (m_context m) (ro_queue (r_read_only r))) /\
+  ro_option ro2 = ro_option (r_read_only r).
+Proof.
+  unfold hbr_ack. intros H. apply ro_advance_sub in H.
+  destruct (ro_recv_ack_spec (r_read_only r) (m_from m) (m_context m)) as (_ & Ho & Hq & _).
+  cbv zeta in Ho, Hq. destruct H as (Ho2 & Hin & _ & Hne & _). rewrite Hq in Hin, Hne.
+  split; [|split; [exact Hne|congruence]].
+  intros st Hst. destruct (Hin st Hst) as (c & Hc & Hp).
+  apply ro_recv_ack_In in Hp. destruct Hp as (st0 & A & B & C0). exists c, st0. auto.
+Qed.
+
+(* with the representation invariant: exactly the queue prefix up to and including the
+   acknowledged context is served, in order, each with its recorded request and index; the
+   rest of the queue stays *)
+Theorem readindex_served_prefix r m served ro2 :
+  RoInv (r_read_only r) ->
+  ro_advance (hbr_ack r m) (m_context m) = Ok (ro2, served) ->
+  In (m_context m) (ro_queue (r_read_only r)) ->
+  exists pre post,
+    ro_queue (r_read_only r) = pre ++ m_context m :: post /\
+    ro_queue ro2 = post /\ RoInv ro2 /\
+    map (fun st => Some (ris_req st, ris_index st)) served
+      = map (fun c => option_map (fun st => (ris_req st, ris_index st))
+                                 (ro_find (ro_pending (r_read_only r)) c)) (pre ++ [m_context m]).
+Proof.
+  intros Hinv H Hin. unfold hbr_ack in H.
+  pose proof (ro_recv_ack_RoInv _ (m_from m) (m_context m) Hinv) as Hinv1.
+  destruct (ro_recv_ack_spec (r_read_only r) (m_from m) (m_context m)) as (_ & _ & Hq & _ & _).
+  cbv zeta in Hq. apply in_split in Hin. destruct Hin as (pre & post & Hsplit).
+  destruct (ro_advance_spec _ (m_context m) Hinv1) as [_ B].
+  rewrite Hq in B. destruct (B pre post Hsplit) as (ro' & rss & Ha & _ & Hq' & Hm & _ & _ & Hinv').
+  assert (Heq : ro' = ro2 /\ rss = served) by (rewrite Ha in H; inversion H; auto).
+  destruct Heq as [-> ->]. exists pre, post. split; [exact Hsplit|]. split; [exact Hq'|].
+  split; [exact Hinv'|].
+  assert (Hm2 : map (option_map (fun st => (ris_req st, ris_index st))) (map Some served)
+                = map (option_map (fun st => (ris_req st, ris_index st)))
+                      (map (ro_find (ro_pending (fst (ro_recv_ack (r_read_only r) (m_from m) (m_context m)))))
+                           (pre ++ [m_context m]))) by (rewrite Hm; reflexivity).
+  rewrite !map_map in Hm2. cbn [option_map] in Hm2. rewrite Hm2. apply map_ext. intros c.
+  destruct (ro_recv_ack_keeps_index (r_read_only r) (m_from m) (m_context m) c) as [A B0].
+  destruct (ro_find (ro_pending (fst (ro_recv_ack (r_read_only r) (m_from m) (m_context m)))) c) as [s1|];
+    destruct (ro_find (ro_pending (r_read_only r)) c) as [s2|]; cbn [option_map] in *; congruence.
+Qed.
